@@ -1,4 +1,5 @@
 import Pcore.Model.LoaderSeq
+import Pcore.Proofs.LoaderCase
 /-! Helper lemmas for C12 (and reused by C13): entry maps, `setEntry`, chains, `findSome?`, sorting. -/
 namespace Pcore.LoaderSeq
 
@@ -635,29 +636,8 @@ theorem discC_sorted (s : Sys) (p : Key → Bool) (ch : List Nat) :
 
 /-! ### letter case -/
 
-theorem toNat_ofNat_valid (n : Nat) (hv : n.isValidChar) : (Char.ofNat n).toNat = n := by
-  unfold Char.ofNat
-  rw [dif_pos hv]
-  unfold Char.ofNatAux Char.toNat
-  simp [UInt32.toNat_ofNatLT]
-
-theorem lowerChar_idem (c : Char) : lowerChar (lowerChar c) = lowerChar c := by
-  unfold lowerChar
-  split
-  · rename_i h
-    split
-    · rename_i h2
-      exfalso
-      obtain ⟨h1, h1'⟩ := h
-      obtain ⟨h3, h3'⟩ := h2
-      have a1 : 65 ≤ c.toNat := h1
-      have a2 : c.toNat ≤ 90 := h1'
-      have hv : (c.toNat + 32).isValidChar := by left; omega
-      have e : (Char.ofNat (c.toNat + 32)).toNat = c.toNat + 32 := toNat_ofNat_valid _ hv
-      have a3 : (Char.ofNat (c.toNat + 32)).toNat ≤ 90 := h3'
-      omega
-    · rfl
-  · rfl
+theorem lowerChar_idem (c : Char) : lowerChar (lowerChar c) = lowerChar c :=
+  Pcore.UnicodeCase.toLower_idem Pcore.Generated.caseRanges Pcore.Generated.caseRanges_lowerOK c
 
 theorem lower_append (a b : String) : lower (a ++ b) = lower a ++ lower b := by
   apply String.toList_inj.mp
